@@ -428,6 +428,8 @@ def run_val(cx, derived=True):
     from checks import valdt, valunion
     valunion.run_all(run)
     valdt.run_dt(run)
+    from checks import valhex
+    valhex.run_hex(run)
     return run
 
 
